@@ -4,6 +4,7 @@ import (
 	"bytes"
 	"encoding/json"
 	"fmt"
+	"strconv"
 	"strings"
 )
 
@@ -22,15 +23,17 @@ func builtinJSONParse(call FunctionCall) Value {
 		ctx.reviver = reviver
 	}
 
-	var root interface{}
-	err := json.Unmarshal([]byte(call.Argument(0).string()), &root)
-	if err != nil {
+	// Validate first (same error messages as before), then build the value from
+	// the token stream: a Go map would lose the order of the members, and
+	// decoding into float64 rejects numbers that ES5 rounds to +-Infinity.
+	text := call.Argument(0).string()
+	var raw json.RawMessage
+	if err := json.Unmarshal([]byte(text), &raw); err != nil {
 		panic(call.runtime.panicSyntaxError(err.Error()))
 	}
-	value, exists := builtinJSONParseWalk(ctx, root)
-	if !exists {
-		value = Value{}
-	}
+	dec := json.NewDecoder(strings.NewReader(text))
+	dec.UseNumber()
+	value := builtinJSONParseDecode(ctx, dec)
 	if revive {
 		root := ctx.call.runtime.newObject()
 		root.put("", value, false)
@@ -68,34 +71,41 @@ func builtinJSONReviveWalk(ctx builtinJSONParseContext, holder *object, name str
 	return ctx.reviver.call(ctx.call.runtime, objectValue(holder), name, value)
 }
 
-func builtinJSONParseWalk(ctx builtinJSONParseContext, rawValue interface{}) (Value, bool) {
-	switch value := rawValue.(type) {
-	case nil:
-		return nullValue, true
-	case bool:
-		return boolValue(value), true
-	case string:
-		return stringValue(value), true
-	case float64:
-		return float64Value(value), true
-	case []interface{}:
-		arrayValue := make([]Value, len(value))
-		for index, rawValue := range value {
-			if value, exists := builtinJSONParseWalk(ctx, rawValue); exists {
-				arrayValue[index] = value
-			}
-		}
-		return objectValue(ctx.call.runtime.newArrayOf(arrayValue)), true
-	case map[string]interface{}:
-		obj := ctx.call.runtime.newObject()
-		for name, rawValue := range value {
-			if value, exists := builtinJSONParseWalk(ctx, rawValue); exists {
-				obj.put(name, value, false)
-			}
-		}
-		return objectValue(obj), true
+func builtinJSONParseDecode(ctx builtinJSONParseContext, dec *json.Decoder) Value {
+	tok, err := dec.Token()
+	if err != nil {
+		panic(ctx.call.runtime.panicSyntaxError(err.Error()))
 	}
-	return Value{}, false
+	switch tok := tok.(type) {
+	case nil:
+		return nullValue
+	case bool:
+		return boolValue(tok)
+	case string:
+		return stringValue(tok)
+	case json.Number:
+		// Out of range gives +-Inf (or 0), the rounding ES5 asks for.
+		number, _ := strconv.ParseFloat(string(tok), 64)
+		return float64Value(number)
+	case json.Delim:
+		if tok == '[' {
+			arrayValue := []Value{}
+			for dec.More() {
+				arrayValue = append(arrayValue, builtinJSONParseDecode(ctx, dec))
+			}
+			dec.Token() //nolint:errcheck // the closing bracket of validated text
+			return objectValue(ctx.call.runtime.newArrayOf(arrayValue))
+		}
+		obj := ctx.call.runtime.newObject()
+		for dec.More() {
+			name, _ := dec.Token()
+			// A repeated name replaces the value and keeps its first position.
+			obj.put(name.(string), builtinJSONParseDecode(ctx, dec), false)
+		}
+		dec.Token() //nolint:errcheck // the closing brace of validated text
+		return objectValue(obj)
+	}
+	return Value{}
 }
 
 type builtinJSONStringifyContext struct {
